@@ -492,7 +492,8 @@ func (r *sessRun) nameRace(rounds int) {
 	sched.Mapper = r.mapper
 	keep := map[string]bool{"svc.login.verify": true, "ctl.new": true, "cm.add": true, "svc.login.beforestart": true, "ctl.start": true,
 		"pm.add": true, "pm.del": true, "pm.exist": true, "ctl.newproxy.begin": true, "ctl.newproxy.end": true, "ctl.closeproxy.begin": true, "ctl.closeproxy.end": true}
-	sched.Filter = func(p string) bool { return keep[p] }
+	prevFilter := sched.Filter
+	sched.Filter = func(p string) bool { return keep[p] && (prevFilter == nil || prevFilter(p)) }
 	r.sink.Reset("trace", -2, "scopes", []string{}, "scenario", "namerace")
 	const K = 8
 	var ps []*sessPeer
@@ -531,7 +532,7 @@ func (r *sessRun) nameRace(rounds int) {
 		p.Close()
 	}
 	time.Sleep(50 * time.Millisecond)
-	sched.Filter = nil
+	sched.Filter = prevFilter
 	srv.Stop()
 }
 
